@@ -95,7 +95,7 @@ def run(ctx):
     # families of other contracts that carry C16: consolidate_categories (runs on every open of a list / directory and on every _metadata
     # write) is total on arbitrary user keys and leaves their entries alone; a footer whose size changed is still fetched completely
     from ._generic import optional_parts
-    for part in optional_parts(("_cats", "p_cats_keys"), ("_many", "p_many_fetch")):
+    for part in optional_parts(("_cats", "p_cats_keys"), ("_many", "p_many_fetch"), ("_header", "p_header")):
         try:
             part(ctx)
         except _Unsup as ex:
